@@ -874,6 +874,7 @@ def parse_google(
         and docstring.parent
         and docstring.parent.is_attribute
         and "property" in docstring.parent.labels
+        and sections[0].kind is DocstringSectionKind.text
     ):
         lines = sections[0].value.lstrip().split("\n")
         if ":" in lines[0]:
